@@ -1,4 +1,5 @@
 import MazeVerif.Lemmas.VocabBlocks
+import MazeVerif.Lemmas.VocabLink
 /-! # C14 — token vocabularies and token-id codecs are fixed, duplicate-free, invertible
 
 Model: `MZ.Vocab` (`Model/Vocab.lean`): `vocab` = `VOCAB_LIST` built from `Generated/Constants.lean`
@@ -60,6 +61,42 @@ theorem C14_nodup : vocab.Nodup := vocab_nodup
 /-- the block view `specials ++ flatten (blocks of _VOCAB_FIELDS)` is the same list -/
 theorem C14_blocks : vocab = vocabFromBlocks ∧ vocabFromBlocks.length = 4096 :=
   ⟨vocab_eq_vocabFromBlocks, vocab_eq_vocabFromBlocks ▸ length_vocab⟩
+
+/-! ## the two models of `VOCAB_LIST` (this one and the generated one used by `C06_vocab`) -/
+
+/-- the naive link between `MZ.Gen.vocab` (Generated/TokVocab.lean, the vocabulary `C06_vocab` talks about) and this file's
+    `vocab`: equality as lists. It is FALSE (`C14_vocab_models_equal_false`): the generated list keeps the `UT_xx_yy` block in
+    plain `np.ndindex` order. The exact relation is `C14_vocab_models_agree`. -/
+def C14_vocab_models_equal : Prop := MZ.Gen.vocab = vocab
+
+/-- counterexample to list equality: position 1598 (= 1596 + 2) holds `"(0,2)"` in `Gen.vocab` and `"(1,0)"` in `vocab`
+    (`corner_first_ndindex(50)` starts `(0,0), (0,1), (1,0), (1,1), …`, row-major starts `(0,0), (0,1), (0,2), …`) -/
+theorem C14_vocab_models_equal_false : ¬ C14_vocab_models_equal := by
+  intro h
+  have h1 := gen_vocab_1598.1
+  rw [h, gen_vocab_1598.2] at h1
+  exact absurd h1 (by decide)
+
+/-- **The two vocabulary models agree up to the order inside the coordinate block** (structural proof, block by block; no
+    evaluation of the 4096 strings): `Gen.vocab` is a permutation of `vocab`; both are `vocabHead ++ UT block` with the same
+    1596-token head (special tokens and `_VOCAB_FIELDS` up to `RESERVE_1595`, same order, hence same ids below 1596); the UT block is
+    `(ndindex 50).map coordToken` in the generated list and `(cornerFirst 50).map coordToken` in this model. Consequently they have
+    the same members, the same length 4096 and both are duplicate-free — all `C06_vocab` uses is membership. -/
+theorem C14_vocab_models_agree :
+    MZ.Gen.vocab ~ vocab ∧
+    MZ.Gen.vocab = vocabHead ++ (ndindex 50).map coordToken ∧
+    vocab = vocabHead ++ (cornerFirst 50).map coordToken ∧
+    vocabHead.length = 1596 ∧
+    (∀ i, i < 1596 → MZ.Gen.vocab[i]? = vocab[i]?) ∧
+    (∀ t, t ∈ MZ.Gen.vocab ↔ t ∈ vocab) ∧
+    MZ.Gen.vocab.length = 4096 ∧ MZ.Gen.vocab.Nodup := by
+  refine ⟨gen_vocab_perm, gen_vocab_eq, ?_, length_vocabHead, ?_, fun t => gen_vocab_perm.mem_iff, ?_, ?_⟩
+  · rw [vocab_eq_head]; rfl
+  · intro i hi
+    rw [gen_vocab_eq, vocab_eq_head, List.getElem?_append_left (by rw [length_vocabHead]; exact hi),
+      List.getElem?_append_left (by rw [length_vocabHead]; exact hi)]
+  · rw [gen_vocab_perm.length_eq, C14_length]
+  · exact gen_vocab_perm.nodup_iff.2 C14_nodup
 
 private theorem seg_at (pre seg post : List String) (off : Nat) (hv : vocab = pre ++ seg ++ post) (hoff : pre.length = off)
     (i : Nat) (h : i < seg.length) : vocab[off + i]? = seg[i]? := by
@@ -374,6 +411,12 @@ example : cornerFirst 2 <+: cornerFirst 3 := (C14_prefix 2 3 (by decide)).1
 private theorem vocab_10 : vocab[10]? = some "<PADDING>" := by rw [C14_layout.2.1 10 (by decide)]; decide
 private theorem vocab_11 : vocab[11]? = some "(" := by rw [C14_layout.2.2.1 0 (by decide)]; decide
 example : vocab[10]? = some "<PADDING>" ∧ vocab[11]? = some "(" := ⟨vocab_10, vocab_11⟩
+/-- the two vocabulary models: a coordinate token sits at different positions, a head token at the same one -/
+example : MZ.Gen.vocab[1598]? = some "(0,2)" ∧ vocab[1598]? = some "(1,0)" := gen_vocab_1598
+example : "(0,2)" ∈ vocab ∧ "(1,0)" ∈ MZ.Gen.vocab :=
+  ⟨(C14_vocab_models_agree.2.2.2.2.2.1 _).1 (List.mem_of_getElem? gen_vocab_1598.1),
+   (C14_vocab_models_agree.2.2.2.2.2.1 _).2 (List.mem_of_getElem? gen_vocab_1598.2)⟩
+example : MZ.Gen.vocab[10]? = some "<PADDING>" := by rw [C14_vocab_models_agree.2.2.2.2.1 10 (by decide)]; exact vocab_10
 example : vocab[64 + 255]? = some ("+" ++ Nat.repr 255) := C14_layout.2.2.2.2.1 255 (by decide)
 example : vocab[1000]? = some ("<RESERVE_" ++ Nat.repr 1000 ++ ">") := C14_layout.2.2.2.2.2.2.2.2.1 1000 (by decide) (by decide)
 example : ∃ ids, encode vocab ["<PADDING>", "("] = .ok ids ∧ decode vocab (ids.map Int.ofNat) = .ok ["<PADDING>", "("] := by
